@@ -2857,7 +2857,10 @@ fn evaluate_scalar_func(
                 return Ok(Arc::new(result));
             }
             if let Some(bin_arr) = arr.as_any().downcast_ref::<BinaryArray>() {
-                let result: StringArray = bin_arr.iter().map(|opt| opt.map(hex::encode)).collect();
+                let result: StringArray = bin_arr
+                    .iter()
+                    .map(|opt| opt.map(hex::encode_upper))
+                    .collect();
                 return Ok(Arc::new(result));
             }
             Err(QueryError::Type(
